@@ -16,6 +16,7 @@ MODULES = {
     "C16": ["contracts.externals", "contracts.types_named", "contracts.codec_headers", "contracts.ezsp_protocol", "contracts.ezsp", "contracts.ezsp_config"],
     "C15": ["contracts.externals", "contracts.types_named", "contracts.multicast"],
     "C19": ["contracts.externals", "contracts.types_named", "contracts.application"],
+    "C17": ["contracts.externals", "contracts.types_named", "contracts.codec_headers", "contracts.ezsp_protocol", "contracts.ezsp", "contracts.ezsp_events"],
     "C03": ["contracts.externals", "contracts.ash", "contracts.ash_wire"],
 }
 
